@@ -8,6 +8,7 @@ import BV.Props.C06
 import BV.Props.C07
 import BV.Props.C08
 import BV.Props.C09
+import BV.Props.C10
 import BV.Props.C11
 import BV.Props.C15
 import BV.Props.C16
